@@ -880,3 +880,52 @@ Proof.
   exists [TDeclareQueue [113]; TUnbind [113] [] [113] (Some [])]. exists [113].
   eexists. vm_compute. split; [left; reflexivity|]. split; reflexivity.
 Qed.
+
+(* ------------------------------------------------------------------ never twice, never elsewhere (no hypothesis on the queues) *)
+Lemma pushes_to_app : forall q a b, pushes_to q (a ++ b) = (pushes_to q a + pushes_to q b)%nat.
+Proof. intros. unfold pushes_to. rewrite filter_app, app_length. reflexivity. Qed.
+
+Lemma pushes_to_unroutable : forall q mand, pushes_to q (unroutable mand) = 0%nat.
+Proof. intros. unfold unroutable. destruct mand; reflexivity. Qed.
+
+Lemma push_loop_prefix : forall qe mand l,
+  exists pre post, l = pre ++ post /\
+    (push_loop qe mand l = map PPush pre \/ push_loop qe mand l = map PPush pre ++ unroutable mand).
+Proof.
+  intros qe mand l. induction l as [|x l IH]; simpl.
+  - exists [], []. auto.
+  - destruct (qe x).
+    + destruct IH as [pre [post [E [H|H]]]]; exists (x :: pre), post; subst; simpl; rewrite H; auto.
+    + exists [], (x :: l). simpl. auto.
+Qed.
+
+Lemma NoDup_app_l : forall (A : Type) (a b : list A), NoDup (a ++ b) -> NoDup a.
+Proof.
+  induction a as [|x a IH]; intros b H; [constructor|].
+  simpl in H. inversion H; subst. constructor.
+  - intro I. apply H2. apply in_app_iff. left. assumption.
+  - eapply IH. eassumption.
+Qed.
+
+Theorem placed_at_most_once : forall c find_ex qe m ex l acts,
+  find_ex (m_exchange m) = Some ex ->
+  matched_queues c ex m = Some l ->
+  publish_decision c find_ex qe m = Some acts ->
+  forall q, (pushes_to q acts <= 1)%nat /\ (pushes_to q acts = 1%nat -> In q l).
+Proof.
+  intros c find_ex qe m ex l acts Hf Hm Hp q.
+  pose proof (matched_queues_nodup c ex m l Hm) as Hn.
+  unfold publish_decision in Hp. rewrite Hf, Hm in Hp.
+  assert (acts = unroutable (m_mandatory m) \/ acts = push_loop qe (m_mandatory m) l) as [E|E].
+  { destruct l; inversion Hp; auto. }
+  - subst. rewrite pushes_to_unroutable. split; [lia | discriminate].
+  - subst. destruct (push_loop_prefix qe (m_mandatory m) l) as [pre [post [El [H|H]]]]; rewrite H;
+      rewrite ?pushes_to_app, ?pushes_to_unroutable, ?Nat.add_0_r, pushes_to_map;
+      subst l; apply NoDup_app_l in Hn.
+    + split.
+      * rewrite (NoDup_count_occ (list_eq_dec N.eq_dec)) in Hn. apply Hn.
+      * intro H1. apply in_app_iff. left. apply (count_occ_In (list_eq_dec N.eq_dec)). lia.
+    + split.
+      * rewrite (NoDup_count_occ (list_eq_dec N.eq_dec)) in Hn. apply Hn.
+      * intro H1. apply in_app_iff. left. apply (count_occ_In (list_eq_dec N.eq_dec)). lia.
+Qed.
